@@ -305,7 +305,7 @@ ENV_MODELLED = [
 ]
 
 PROPS = {
-    "C12": {"engine": "env", "modelled": ENV_MODELLED, "assumptions": [
+    "C12": {"engine": "env", "extra_props": ["FactsClean"], "modelled": ENV_MODELLED, "assumptions": [
         "spok --clean is invoked from the directory of the spokfile (from nested directories a relative variable output is resolved "
         "against the working directory: compared with the model, not judged)",
         "the user's clean task only prints (the judge attributes every removal to spok itself)",
